@@ -93,6 +93,18 @@ def run(ctx):
                 for bits in Q.seed_vectors(rng, d, 2 ** d if d <= 5 else (12 if quick else 128)):
                     cases.append({"fn": "qspp", "poly": [hexf(x) for x in p], "signal_operator": rng.choice(["Wx", "Wz"]), "bits": bits,
                                   "family": "real", "sub": "edge", "timeout": 300})
+        # two-term members  a T_{d-2} + b T_d  with opposite signs: the polynomial dips towards -1 / rises towards 1 just outside [-1,1],
+        # which gives three or more real roots of 1 - F F~ on one side of the circle (odd counts of selected real roots)
+        for d in ((3, 4, 5, 6, 7, 9) if quick else range(3, 13)):
+            for a_, b_ in (((-0.66, 0.10), (0.6, -0.12)) if quick else ((-0.66, 0.10), (0.6, -0.12), (-0.7, 0.09), (0.55, -0.2), (-0.5, 0.3))):
+                cvec = [0.0] * (d + 1)
+                cvec[d - 2], cvec[d] = a_, b_
+                p = [float(x) for x in Q.cheb2mono([Fraction(*float(x).as_integer_ratio()) for x in cvec])]
+                if not real_member(p):
+                    continue
+                for bits in Q.seed_vectors(rng, d, 2 ** d if d <= 4 else (8 if quick else 64)):
+                    cases.append({"fn": "qspp", "poly": [hexf(x) for x in p], "signal_operator": rng.choice(["Wx", "Wz"]), "bits": bits,
+                                  "family": "real", "sub": "two-term", "timeout": 300})
         # members next to a collision of two real roots of 1 - F F~ (generated with numpy on the implementation side)
         gen = run_impl([{"fn": "c03_bifurc", "d": d, "seed": rng.randrange(2 ** 31), "want": 9 if quick else 36, "timeout": 600}
                         for d in ([2, 3, 4, 6, 8] if quick else range(2, 13))], timeout=1200)
